@@ -310,7 +310,7 @@ Lemma rt_step_rel : forall st ev tr,
   let (st', o) := rt_step st ev in
   rt_rel (tr ++ o) (rs_uid st') (rt_nodes (rs_q st')).
 Proof.
-  intros st ev tr Hev R. destruct ev as [dt|s m b cfg r| |s m|s m|s m tok|s reason|tmo|]; cbn [rt_step].
+  intros st ev tr Hev R. destruct ev as [dt|s m b cfg r| |s m|s m|s m tok|s reason|s m|tmo|]; cbn [rt_step].
   - cbn. rewrite app_nil_r. exact R.
   - unfold rt_send. set (T := fp_calc_timeout _ _ _ _ _).
     set (n := sq_mk_node _ _ _ _ _ _ _). set (st1 := rt_mk_state _ _ _ _).
@@ -366,6 +366,13 @@ Proof.
     destruct rm as [|n rm].
     + apply rt_rel_neutral; [intros u; reflexivity|]. eapply rt_rel_perm; [exact P|exact R].
     + apply rt_rel_drop_nacked; [cbn in Hev; tauto|]. eapply rt_rel_perm; [exact P|exact R].
+  - unfold rt_delete. destruct (sq_remove (rs_q st) s m) as [[[t n] q']|] eqn:Rm.
+    + destruct (rt_nodes_remove _ _ _ _ _ _ Rm) as [P _]. cbn [rt_set_q rs_uid rs_q].
+      eapply rt_rel_drop with (n := n) (tag := PAcked); [intros _; exact I| | |].
+      * cbn. rewrite Z.eqb_refl. reflexivity.
+      * intros u Hu. cbn. assert (X : (qn_uid n =? u) = false) by lia. rewrite X. reflexivity.
+      * eapply rt_rel_perm; [exact P|exact R].
+    + rewrite app_nil_r. exact R.
   - unfold rt_io_process, rt_fire_all.
     pose proof (rt_fire_rel (rt_budget (rs_q st)) st tr R) as H1.
     destruct (rt_fire (rt_budget (rs_q st)) st) as [st1 o1]. destruct H1 as [R1 _].
@@ -502,4 +509,21 @@ Proof.
   exists (rt_mk_state 600 0 [(2000, sq_mk_node 0 0 10 0 2000 4 []); (500, sq_mk_node 1 1 20 0 2000 4 [])] 2),
          0, 1, 0.
   split; [discriminate|]. split; [discriminate|]. vm_compute. reflexivity.
+Qed.
+
+(* ------------------------------------------------------------------ deleting a linked node *)
+(* coap_delete_node on a queued node: exactly that node leaves, silently; every other message
+   keeps deadline, counter and place; nothing queued under that (session, mid): nothing happens *)
+Theorem rt_delete_spec : forall st s m,
+  (forall t n q', sq_remove (rs_q st) s m = Some ((t, n), q') ->
+     rt_delete st s m = (rt_set_q st q', [RoAcked (rs_now st) (qn_uid n)]) /\
+     exists l1 l2 d, sq_abs (rs_base st) (rs_q st) = l1 ++ (d, n) :: l2 /\
+                     sq_abs (rs_base st) q' = l1 ++ l2) /\
+  (sq_remove (rs_q st) s m = None -> rt_delete st s m = (st, [])).
+Proof.
+  intros st s m. split.
+  - intros t n q' H. unfold rt_delete. rewrite H. split; [reflexivity|].
+    destruct (sq_remove_others _ (rs_base st) _ _ _ _ _ H) as (l1 & l2 & d & E1 & E2 & _ & _).
+    exists l1, l2, d. auto.
+  - intros H. unfold rt_delete. rewrite H. reflexivity.
 Qed.
